@@ -334,10 +334,21 @@ class NamespaceClass(Namespace[symtable.Class]):
         if self.comp_stack:
             # inside a lambda or a comprehension nested in the class body:
             # such scopes do not see the class members
-            if name in self.outer_nonlocal_map:
-                outer = self.outer_nonlocal_map[name]
+            owner: Namespace | None = self.outer_nonlocal_map.get(name)
+            if owner is None:
+                # the name may pass through this class without being free in
+                # it (the class binds the same name): ask the enclosing function
+                enclosing = self.outer_nsp
+                while isinstance(enclosing, NamespaceClass):
+                    enclosing = enclosing.outer_nsp
+                if isinstance(enclosing, NamespaceFunction):
+                    if name in enclosing.inner_nonlocal_names:
+                        owner = enclosing
+                    else:
+                        owner = enclosing.outer_nonlocal_map.get(name)
+            if owner is not None:
                 return Subscript(
-                    value=outer.nonlocal_dict_expr,
+                    value=owner.nonlocal_dict_expr,
                     slice=Constant(value=name),
                     ctx=Load(),
                 )
